@@ -39,6 +39,7 @@ STD_BOUNDS = ("payloads through the arena value source with a FIXED skeleton per
 STD_OUT = ("payloads larger or deeper than the skeletons; strings outside the tables; message text (alloc::fmt::format stubbed); "
            "user-written Deserr impls; derive inputs outside the catalogue; serde_json as the value source (C13)")
 STD_ASSUME = COMMON_ASSUME + ["stub: alloc::fmt::format returns an empty String (message text not observed)",
+                              "stubs (map/set targets): BTreeMap/BTreeSet/HashMap::insert -> call log (std map semantics trusted); std::hash::RandomState::new -> zeroed state",
                               "object keys pairwise distinct (duplicate keys only in the C12 harnesses)",
                               "the recording error type keeps what it is handed (by construction: a Rec is the set of report ids it was built from)"]
 CAT = "thorough tier: plus N (default 6, env VERIF_GEN_N) derive inputs generated from VERIF_SEED by tools/gen_catalogue.py with their reference models; catalogue of 12 hand-written derive inputs (S1..S6, C1, C2, E0..E3, N1) covering rename/rename_all/default/skip/deny_unknown_fields/missing_field_error/try_from/from/map/validate/error=/tag/unit enums"
